@@ -508,6 +508,9 @@ func (c *resultCodec) Decode(source io.Reader, version primitive.ProtocolVersion
 			return nil, fmt.Errorf("invalid RESULT Rows data length: %d", rowsCount)
 		} else if rows.Metadata.ColumnCount < 0 {
 			return nil, fmt.Errorf("invalid RESULT Rows metadata column count: %d", rows.Metadata.ColumnCount)
+		} else if rowsCount > 0 && rows.Metadata.ColumnCount == 0 {
+			// rows without columns occupy no bytes: the declared count could not be checked against the data
+			return nil, fmt.Errorf("invalid RESULT Rows: %d rows declared, but no columns", rowsCount)
 		}
 		// the counts come from the wire: allocate as the data actually arrives
 		rows.Data = make(RowSet, 0, primitive.BoundedCapacity(rowsCount))
